@@ -231,6 +231,22 @@ def _run_server(case, bits, other, mode, coroutine, w):
     else:
         _check(v, w, n0, 'unregistered-event', tgt2, ns,
                'nobody-handles-this', 's', [sid, 1])
+    if mode == 'async':
+        # the registry changes while the server runs: a handler of the OTHER
+        # kind (plain function <-> coroutine) is registered for exactly this
+        # namespace and event, and the same event arrives again
+        srv.on(ev, w.make_handler(('s', 'func', ns, ev), plan,
+                                  not coroutine), namespace=ns)
+        n0 = len(w.rec.events)
+        n_rx = len(peer.rx)
+        peer.send_pkt(sio.EVENT, ns, 31, [ev] + case['args'])
+        w.settle()
+        _check(v, w, n0, 're-registered', ('func', 'NS', 'EV', []), ns, ev,
+               's', [sid] + wire_norm(case['args']))
+        acks = [r['pkt'] for r in peer.rx[n_rx:] if r['pkt'].base == sio.ACK]
+        if [(a.id, a.data) for a in acks] != [(31, ['R'])]:
+            v.add('ack_content', 're-registered handler: acks %s' % acks,
+                  're-registered')
     # an event literally named '*': an ordinary event name like any other
     # (it cannot have a handler of its own: on('*') IS the catch-all), so it
     # goes to the catch-all with its name prepended, or is dropped
